@@ -245,7 +245,7 @@ def build_recipe(recipe):
     return top, ports
 
 
-def convert_digest(recipe, again=False):
+def convert_digest(recipe, again=False, as_fragment=False):
     from amaranth.back import rtlil
     if "progen" in recipe:
         # a generated Module-DSL program (If/Switch/FSM bodies mixing several domains, wrappers, submodules); its domains are
@@ -256,6 +256,11 @@ def convert_digest(recipe, again=False):
     else:
         top, ports = build_recipe(recipe)
     before = [dict(p.attrs) for p in ports if hasattr(p, "attrs")]
+    if as_fragment and ports is not None:
+        # the design is handed over as a Fragment obtained once (as docs/stdlib/io.rst does), and that same object is converted
+        # again: the result must still be that of the design
+        from amaranth.hdl import Fragment
+        top = Fragment.get(top, None)
     text = rtlil.convert(top, ports=ports)
     if again:
         # the very same object once more: elaboration must not leave anything behind that changes the result
@@ -391,7 +396,7 @@ def run_hashseed(case, res, dig, stats):
     inproc2 = []
     for r in recipes:
         try:
-            inproc1.append(convert_digest(r, again=True)[0])
+            inproc1.append(convert_digest(r, again=True, as_fragment=bool(r.get("as_fragment")))[0])
             inproc2.append(convert_digest(r)[0])
         except Exception as e:
             inproc1.append("EXC:" + type(e).__name__)
@@ -409,8 +414,11 @@ def run_hashseed(case, res, dig, stats):
         if inproc1[i].startswith("SECOND-CONVERSION-FAILED:"):
             raise Violation("second_conversion_of_same_object_fails", i, {"recipe_index": i, "type": inproc1[i].split(":", 1)[1],
                                                                           "own_clock_domain_under_renamer": '"own_cd": {' in json.dumps(r)})
+        as_frag = bool(r.get("as_fragment"))
+        if as_frag:
+            P["fragment_object_converted_twice"] = P.get("fragment_object_converted_twice", 0) + 1
         if inproc1[i] == "SAME-OBJECT-DIFFERS":
-            raise Violation("rtlil_differs_when_same_object_is_converted_twice", i, {"recipe_index": i})
+            raise Violation("rtlil_differs_when_same_object_is_converted_twice", i, {"recipe_index": i, "as_fragment": as_frag})
         if inproc1[i] != inproc2[i]:
             raise Violation("rtlil_differs_between_two_builds_in_one_interpreter", i, {"recipe_index": i})
         if inproc1[i] != next(iter(ds.values())):
@@ -826,6 +834,9 @@ def gen_case_i(seed, tier, index):
                 recipes.append({"progen": prog})
             else:
                 recipes.append(gen_recipe(cfg))
+        for r in recipes:
+            if fl.random() < 0.3:
+                r["as_fragment"] = True
         return {"kind": "hashseed", "recipes": recipes, "hashseeds": hs}
     if kind == "restart":
         return gen_restart(cfg, wl, fl, tier)
